@@ -384,8 +384,12 @@ pub enum CEv {
     Map = 1,
     /// Client trigger with targets.
     Trig = 2,
+    /// Plain event on an unordered channel.
+    Unord = 3,
+    /// Plain event on an unreliable channel.
+    Unrel = 4,
 }
-pub const ALL_CEV: [CEv; 3] = [CEv::Ord, CEv::Map, CEv::Trig];
+pub const ALL_CEV: [CEv; 5] = [CEv::Ord, CEv::Map, CEv::Trig, CEv::Unord, CEv::Unrel];
 
 #[derive(Event, Serialize, Deserialize, Clone, Copy, Debug)]
 pub struct SeOrd {
@@ -431,6 +435,14 @@ impl MapEntities for CeMap {
 }
 #[derive(Event, Serialize, Deserialize, Clone, Copy, Debug)]
 pub struct ExtraEv(pub u32);
+#[derive(Event, Serialize, Deserialize, Clone, Copy, Debug)]
+pub struct CeUnord {
+    pub seq: u32,
+}
+#[derive(Event, Serialize, Deserialize, Clone, Copy, Debug)]
+pub struct CeUnrel {
+    pub seq: u32,
+}
 #[derive(Event, Serialize, Deserialize, Clone, Copy, Debug)]
 pub struct CtTrig {
     pub seq: u32,
@@ -483,6 +495,12 @@ fn emit_pending(world: &mut World) {
                     Some(t) => world.client_trigger_targets(CtTrig { seq }, t),
                     None => world.client_trigger(CtTrig { seq }),
                 },
+                CEv::Unord => {
+                    world.send_event(CeUnord { seq });
+                }
+                CEv::Unrel => {
+                    world.send_event(CeUnrel { seq });
+                }
             },
         }
     }
@@ -538,6 +556,8 @@ fn probe_events(
     mut e4: EventReader<SeInd>,
     mut c1: EventReader<FromClient<CeOrd>>,
     mut c2: EventReader<FromClient<CeMap>>,
+    mut c3: EventReader<FromClient<CeUnord>>,
+    mut c4: EventReader<FromClient<CeUnrel>>,
     mut dr: EventReader<DisconnectRequest>,
 ) {
     let u = ut(&tick);
@@ -564,6 +584,12 @@ fn probe_events(
             ent: Some(e.event.ent),
             targets: vec![],
         });
+    }
+    for e in c3.read() {
+        p.cev.push(CEvObs { kind: CEv::Unord, seq: e.event.seq, client: e.client, ent: None, targets: vec![] });
+    }
+    for e in c4.read() {
+        p.cev.push(CEvObs { kind: CEv::Unrel, seq: e.event.seq, client: e.client, ent: None, targets: vec![] });
     }
     for e in dr.read() {
         p.disconnect_requests.push(e.client);
@@ -740,9 +766,13 @@ impl Chans {
             _ => 0,
         }
     }
-    /// All client->server channels are ordered.
-    pub fn client_kind(&self, _ch: usize) -> u8 {
-        0
+    /// Channel kind of a client->server channel: 0 ordered, 1 unordered, 2 unreliable.
+    pub fn client_kind(&self, ch: usize) -> u8 {
+        match self.cev_of(ch) {
+            Some(CEv::Unord) => 1,
+            Some(CEv::Unrel) => 2,
+            _ => 0,
+        }
     }
 }
 
@@ -779,7 +809,9 @@ pub fn register_pool(app: &mut App, cfg: &AppCfg, role: Role) {
         .add_server_trigger::<StTrig>(Channel::Ordered)
         .add_client_event::<CeOrd>(Channel::Ordered)
         .add_mapped_client_event::<CeMap>(Channel::Ordered)
-        .add_client_trigger::<CtTrig>(Channel::Ordered);
+        .add_client_trigger::<CtTrig>(Channel::Ordered)
+        .add_client_event::<CeUnord>(Channel::Unordered)
+        .add_client_event::<CeUnrel>(Channel::Unreliable);
     if cfg.proto_variant == 1 {
         // A build that differs by one trailing registration (channel ids of the pool stay the same).
         app.add_client_event::<ExtraEv>(Channel::Ordered);
